@@ -147,7 +147,8 @@ StrayOpenFailure(id) ==
   /\ UNCHANGED <<counter, open, pend, inwin, await>>
 StrayOpenSuccess(id) == UNCHANGED vars
 DuplicateClose(id) == id \notin DOMAIN open /\ UNCHANGED vars
-Stray == \E id \in Ids : StrayOpenFailure(id) \/ StrayOpenSuccess(id) \/ DuplicateClose(id)
+\* (the last two never change the state: they are stuttering steps of Spec and only appear in generated histories)
+Stray == \E id \in Ids : StrayOpenFailure(id)
 
 Next == LocalOpen \/ LocalOpenSend \/ (\E id \in await : OpenAccepted(id) \/ OpenRefused(id) \/ OpenTimeout(id))
         \/ (\E id \in map : Collect(id)) \/ PeerOpenBegin \/ PeerOpenCommit \/ PeerOpenReject \/ (\E id \in DOMAIN open : Close(id)) \/ Stray
